@@ -1,7 +1,422 @@
-// Tet / hex specific oracles (C15, C16) and the specialised circulators of C05 / C09.
+// Tet / hex specific oracles (C15, C16) and the specialised circulators of C05 / C09 / C12.
 #pragma once
 #include "oracles_fwd.hh"
+#include "menu.hh"
+#if defined(MC_TET)
+#include <OpenVolumeMesh/Unstable/Topology/TetTopology.hh>
+#include <OpenVolumeMesh/Unstable/Topology/TriangleTopology.hh>
+#endif
+
 namespace mc {
-inline void special_circulators_c05(const Sys &s, const Bf &bf, Viols &vs, Stats &st) {}
-inline void special_c09(const Sys &s, const Bf &bf, Viols &vs, Stats &st) {}
+
+
+inline bool rot_equal(const std::vector<int> &a, const std::vector<int> &b) {
+    if (a.size() != b.size()) return false;
+    for (size_t r = 0; r < a.size(); ++r) { bool ok = true; for (size_t i = 0; i < a.size() && ok; ++i) ok = a[(i + r) % a.size()] == b[i]; if (ok) return true; }
+    return a.empty();
+}
+// parity of the permutation taking tuple a to tuple b (same 4 distinct elements): true = even
+inline bool same_orientation4(const std::vector<int> &a, const std::vector<int> &b) {
+    int p[4];
+    for (int i = 0; i < 4; ++i) { p[i] = -1; for (int j = 0; j < 4; ++j) if (b[i] == a[j]) p[i] = j; if (p[i] < 0) return false; }
+    int inv = 0;
+    for (int i = 0; i < 4; ++i) for (int j = i + 1; j < 4; ++j) if (p[i] > p[j]) ++inv;
+    return inv % 2 == 0;
+}
+
+#if defined(MC_TET)
+// a closed tetrahedral cell: 4 triangles, 4 distinct vertices, closed surface
+inline bool is_tet(const Bf &bf, int c) {
+    if (bf.chf[c].size() != 4) return false;
+    for (int hf : bf.chf[c]) if (bf.hfhe[hf].size() != 3) return false;
+    return bf.cv(c).size() == 4 && closed_surface(bf, bf.chf[c]);
+}
+inline int apex_of(const Bf &bf, int c, int hf) { auto cv = bf.cv(c); for (int v : bf.hfv(hf)) cv.erase(v); return cv.size() == 1 ? *cv.begin() : -1; }
+
+#define TT_HEL_LIST(X) X(AB, A, B) X(BC, B, C) X(CA, C, A) X(CD, C, D) X(AD, A, D) X(BD, B, D) X(BA, B, A) X(CB, C, B) X(AC, A, C) X(DC, D, C) X(DA, D, A) X(DB, D, B)
+#define TT_HFL_LIST(X)                                                                                                                    \
+    X(BDC, B, D, C) X(CBD, C, B, D) X(DCB, D, C, B) X(ACD, A, C, D) X(CDA, C, D, A) X(DAC, D, A, C) X(ADB, A, D, B) X(BAD, B, A, D)          \
+    X(DBA, D, B, A) X(ABC, A, B, C) X(BCA, B, C, A) X(CAB, C, A, B) X(BCD, B, C, D) X(CDB, C, D, B) X(DBC, D, B, C) X(ADC, A, D, C)          \
+    X(CAD, C, A, D) X(DCA, D, C, A) X(ABD, A, B, D) X(BDA, B, D, A) X(DAB, D, A, B) X(ACB, A, C, B) X(BAC, B, A, C) X(CBA, C, B, A)
+
+inline void check_tettopology(const Mesh &m, const Bf &bf, int c, const TetTopology &tt, const std::string &how, Viols &vs, Stats &st) {
+    using TT = TetTopology;
+    st.hit("c15-tettopology-labelings");
+    int v[4] = {tt.vh<TT::A>().idx(), tt.vh<TT::B>().idx(), tt.vh<TT::C>().idx(), tt.vh<TT::D>().idx()};
+    std::set<int> vs4(v, v + 4);
+    if (vs4.size() != 4 || vs4 != bf.cv(c)) { VIOL(vs, "c15:tettopology:vertices", how << " cell " << c << ": labelled vertices " << v[0] << "," << v[1] << "," << v[2] << "," << v[3]); return; }
+    auto V = [&](TT::VertexLabel l) { return v[(int)l]; };
+#define X(L, F, T)                                                                                                                                          \
+    { int he = tt.heh<TT::L>().idx();                                                                                                                        \
+      if (he < 0 || he >= 2 * bf.ne || bf.edel[he / 2] || bf.from(he) != V(TT::F) || bf.to(he) != V(TT::T)) VIOL(vs, "c15:tettopology:halfedge", how << " cell " << c << ": halfedge label " #L " = " << he << " does not join " #F "->" #T); \
+      else { auto gl = tt.get_label(HalfEdgeHandle(he)); if (!gl || *gl != TT::L) VIOL(vs, "c15:tettopology:get_label(heh)", how << " cell " << c << " label " #L); } }
+    TT_HEL_LIST(X)
+#undef X
+#define X(L, P, Q, R)                                                                                                                                        \
+    { int hf = tt.hfh<TT::L>().idx();                                                                                                                        \
+      bool inner = TT::is_inner(TT::L);                                                                                                                      \
+      std::vector<int> want{V(TT::P), V(TT::Q), V(TT::R)};                                                                                                   \
+      if (hf < 0 || hf >= 2 * bf.nf || bf.fdel[hf / 2] || !rot_equal(bf.hfv(hf), want) || !std::count(bf.chf[c].begin(), bf.chf[c].end(), inner ? hf : (hf ^ 1)))      \
+          VIOL(vs, "c15:tettopology:halfface", how << " cell " << c << ": halfface label " #L " = " << hf << " is not the " << (inner ? "cell's" : "opposite") << " halfface on " #P #Q #R);  \
+      else {                                                                                                                                                 \
+          auto gl = tt.get_label(HalfFaceHandle(hf), VertexHandle(V(TT::P)));                                                                                \
+          if (!gl || *gl != TT::L) VIOL(vs, "c15:tettopology:get_label(hfh,vh)", how << " cell " << c << " label " #L);                                       \
+          auto g0 = tt.get_label(HalfFaceHandle(hf));                                                                                                        \
+          if (!g0 || ((*g0) & ~3) != (TT::L & ~3)) VIOL(vs, "c15:tettopology:get_label(hfh)", how << " cell " << c << " label " #L);                          \
+          if (inner) {                                                                                                                                       \
+              auto tri = tt.triangle_topology<TT::L>();                                                                                                      \
+              if (tri.a().idx() != V(TT::P) || tri.b().idx() != V(TT::Q) || tri.c().idx() != V(TT::R)) VIOL(vs, "c15:triangletopology:vertices", how << " cell " << c << " label " #L);  \
+              else if (bf.from(tri.ab().idx()) != V(TT::P) || bf.to(tri.ab().idx()) != V(TT::Q) || bf.from(tri.bc().idx()) != V(TT::Q) || bf.to(tri.bc().idx()) != V(TT::R) ||           \
+                       bf.from(tri.ca().idx()) != V(TT::R) || bf.to(tri.ca().idx()) != V(TT::P)) VIOL(vs, "c15:triangletopology:halfedges", how << " cell " << c << " label " #L);        \
+          } } }
+    TT_HFL_LIST(X)
+#undef X
+    for (int k = 0; k < 4; ++k) { auto gl = tt.get_label(VertexHandle(v[k])); if (!gl || (int)*gl != k) VIOL(vs, "c15:tettopology:get_label(vh)", how << " cell " << c); }
+    (void)m;
+}
+
+inline void check_c15_state(const Sys &s, const Bf &bf, Viols &vs, Stats &st) {
+    const Mesh &m = s.m;
+    for (int f = 0; f < bf.nf; ++f) if (!bf.fdel[f] && bf.hfhe[2 * f].size() != 3) VIOL(vs, "c15:shape:face-valence", "face " << f << " has " << bf.hfhe[2 * f].size() << " edges");
+    for (int c = 0; c < bf.nc; ++c) {
+        if (bf.cdel[c]) continue;
+        if (bf.chf[c].size() != 4) { VIOL(vs, "c15:shape:cell-valence", "cell " << c << " has " << bf.chf[c].size() << " faces"); continue; }
+        if (bf.cv(c).size() != 4) { VIOL(vs, "c15:shape:cell-vertices", "cell " << c << " has " << bf.cv(c).size() << " distinct vertices"); continue; }
+    }
+    if (!vs.empty() || !m.has_full_bottom_up_incidences() || bf.hf_in_two_cells) return;
+    for (int c = 0; c < bf.nc; ++c) {
+        if (bf.cdel[c] || !is_tet(bf, c)) continue;
+        st.hit("c15-tets");
+        CellHandle ch(c);
+        auto base = idxs(m.get_cell_vertices(ch));
+        {
+            int hf0 = bf.chf[c][0];
+            auto want = bf.hfv(hf0); want.push_back(apex_of(bf, c, hf0));
+            if (base != want) VIOL(vs, "c15:get_cell_vertices(ch)", "cell " << c << ": " << vstr(base) << " expected " << vstr(want));
+            // tet vertex iterator agrees, full circulator protocol
+            circ_protocol("tv", c, [&](int l) { return m.tv_iter(ch, l); }, [&](int l) { return m.tet_vertices(ch, l); }, want, SEQ, vs, st);
+        }
+        for (int hf : bf.chf[c]) {
+            HalfFaceHandle hfh(hf);
+            int apex = apex_of(bf, c, hf);
+            auto want = bf.hfv(hf); want.push_back(apex);
+            auto got = idxs(m.get_cell_vertices(hfh));
+            if (got != want) VIOL(vs, "c15:get_cell_vertices(hfh)", "cell " << c << " halfface " << hf << ": " << vstr(got) << " expected " << vstr(want));
+            if (m.halfface_opposite_vertex(hfh).idx() != apex) VIOL(vs, "c15:halfface_opposite_vertex", "halfface " << hf << " -> " << m.halfface_opposite_vertex(hfh).idx() << " expected " << apex);
+            if (m.vertex_opposite_halfface(ch, VertexHandle(apex)).idx() != hf) VIOL(vs, "c15:vertex_opposite_halfface", "cell " << c << " vertex " << apex << " -> " << m.vertex_opposite_halfface(ch, VertexHandle(apex)).idx() << " expected " << hf);
+            if (bf.cell_of(hf ^ 1) < 0 && m.halfface_opposite_vertex(HalfFaceHandle(hf ^ 1)).is_valid()) VIOL(vs, "c15:halfface_opposite_vertex:boundary", "boundary halfface " << (hf ^ 1));
+            for (size_t i = 0; i < 3; ++i) {
+                int he = bf.hfhe[hf][i];
+                auto cyc = bf.hfv(hf);
+                std::vector<int> w{cyc[i], cyc[(i + 1) % 3], cyc[(i + 2) % 3], apex};
+                auto g = idxs(m.get_cell_vertices(hfh, HalfEdgeHandle(he)));
+                if (g != w) VIOL(vs, "c15:get_cell_vertices(hfh,heh)", "halfface " << hf << " halfedge " << he << ": " << vstr(g) << " expected " << vstr(w));
+                st.hit("c15-vertex-order-checks");
+            }
+            // TetTopology constructors anchored at this halfface
+            for (int a : bf.hfv(hf)) {
+                check_tettopology(m, bf, c, TetTopology(m, ch, hfh, VertexHandle(a)), "TetTopology(ch,hfh,a)", vs, st);
+                check_tettopology(m, bf, c, TetTopology(m, hfh, VertexHandle(a)), "TetTopology(hfh,a)", vs, st);
+                { TetTopology t(m, ch, hfh, VertexHandle(a)); if (t.vh<TetTopology::A>().idx() != a || t.hfh<TetTopology::ABC>().idx() != hf) VIOL(vs, "c15:tettopology:anchor", "cell " << c << " halfface " << hf << " a=" << a); }
+            }
+            check_tettopology(m, bf, c, TetTopology(m, ch, hfh), "TetTopology(ch,hfh)", vs, st);
+            if (!vs.empty()) return;
+        }
+        for (int v : bf.cv(c)) {
+            auto g = idxs(m.get_cell_vertices(ch, VertexHandle(v)));
+            std::set<int> gs(g.begin(), g.end());
+            if (g.size() != 4 || gs != bf.cv(c) || g[0] != v || !same_orientation4(base, g)) VIOL(vs, "c15:get_cell_vertices(ch,vh)", "cell " << c << " from vertex " << v << ": " << vstr(g) << " (base " << vstr(base) << ")");
+            check_tettopology(m, bf, c, TetTopology(m, ch, VertexHandle(v)), "TetTopology(ch,a)", vs, st);
+            { TetTopology t(m, ch, VertexHandle(v)); if (t.vh<TetTopology::A>().idx() != v) VIOL(vs, "c15:tettopology:anchor", "cell " << c << " a=" << v); }
+        }
+        check_tettopology(m, bf, c, TetTopology(m, ch), "TetTopology(ch)", vs, st);
+        if (!vs.empty()) return;
+    }
+}
+
+// oriented cells in vertex-label space, canonical up to even permutations
+inline std::vector<int> canon_oriented(std::vector<int> t) {
+    std::vector<int> best;
+    std::vector<int> p = t;
+    std::sort(p.begin(), p.end());
+    do { if (same_orientation4(t, p)) { if (best.empty() || p < best) best = p; } } while (std::next_permutation(p.begin(), p.end()));
+    return best;
+}
+inline std::set<std::vector<int>> oriented_cells(const Sys &s, const Bf &bf) {
+    std::set<std::vector<int>> r;
+    for (int c = 0; c < bf.nc; ++c) {
+        if (bf.cdel[c] || !is_tet(bf, c)) continue;
+        auto t = bf.hfv(bf.chf[c][0]);
+        t.push_back(apex_of(bf, c, bf.chf[c][0]));
+        for (auto &x : t) x = s.vl[VertexHandle(x)];
+        r.insert(canon_oriented(t));
+    }
+    return r;
+}
+// link condition for the edge (a,b) on the simplicial complex spanned by the live vertices, edges, faces, cells
+inline bool link_condition(const Bf &bf, int he) {
+    int a = bf.from(he), b = bf.to(he);
+    if (a == b) return false;
+    std::set<std::set<int>> simplices;
+    for (int v = 0; v < bf.nv; ++v) if (!bf.vdel[v]) simplices.insert({v});
+    for (int e = 0; e < bf.ne; ++e) if (!bf.edel[e]) simplices.insert({bf.ev[e][0], bf.ev[e][1]});
+    for (int f = 0; f < bf.nf; ++f) if (!bf.fdel[f]) { auto v = bf.hfv(2 * f); simplices.insert(std::set<int>(v.begin(), v.end())); }
+    for (int c = 0; c < bf.nc; ++c) if (!bf.cdel[c]) simplices.insert(bf.cv(c));
+    auto link = [&](const std::set<int> &sigma) {
+        std::set<std::set<int>> r;
+        for (auto &t : simplices) {
+            bool contains = true;
+            for (int x : sigma) if (!t.count(x)) contains = false;
+            if (!contains || t.size() == sigma.size()) continue;
+            std::set<int> rest;
+            for (int x : t) if (!sigma.count(x)) rest.insert(x);
+            r.insert(rest);
+            // all non-empty subsets of rest are in the link too (closure)
+            std::vector<int> rv(rest.begin(), rest.end());
+            for (unsigned mask = 1; mask < (1u << rv.size()); ++mask) { std::set<int> sub; for (size_t i = 0; i < rv.size(); ++i) if (mask & (1u << i)) sub.insert(rv[i]); r.insert(sub); }
+        }
+        return r;
+    };
+    auto la = link({a}), lb = link({b}), lab = link({a, b});
+    std::set<std::set<int>> inter;
+    for (auto &x : la) if (lb.count(x)) inter.insert(x);
+    return inter == lab;
+}
+inline bool clean_complex(const Bf &bf) {
+    std::set<std::set<int>> es, fs;
+    for (int e = 0; e < bf.ne; ++e) if (!bf.edel[e]) { if (bf.ev[e][0] == bf.ev[e][1]) return false; if (!es.insert({bf.ev[e][0], bf.ev[e][1]}).second) return false; }
+    for (int f = 0; f < bf.nf; ++f) if (!bf.fdel[f]) { auto v = bf.hfv(2 * f); std::set<int> sv(v.begin(), v.end()); if (v.size() != 3 || sv.size() != 3 || !fs.insert(sv).second) return false; }
+    for (int c = 0; c < bf.nc; ++c) if (!bf.cdel[c] && !is_tet(bf, c)) return false;
+    return true;
+}
+#endif  // MC_TET
+
+#if defined(MC_HEX)
+inline bool is_hex_cell(const Bf &bf, int c) {
+    if (bf.chf[c].size() != 6) return false;
+    for (int hf : bf.chf[c]) if (bf.hfhe[hf].size() != 4) return false;
+    return bf.cv(c).size() == 8 && closed_surface(bf, bf.chf[c]);
+}
+inline int adj_in_cell_brute(const Bf &bf, int c, int hf, int he) {
+    int r = -1;
+    for (int g : bf.chf[c]) { if (g == hf) continue; if (std::count(bf.hfhe[g].begin(), bf.hfhe[g].end(), he ^ 1)) { if (r >= 0) return -2; r = g; } }
+    return r;
+}
+inline void check_c16_state(const Sys &s, const Bf &bf, Viols &vs, Stats &st) {
+    const Mesh &m = s.m;
+    using HK = HexahedralMeshTopologyKernel;
+    for (int f = 0; f < bf.nf; ++f) if (!bf.fdel[f] && bf.hfhe[2 * f].size() != 4) VIOL(vs, "c16:shape:face-valence", "face " << f << " has " << bf.hfhe[2 * f].size() << " edges");
+    for (int c = 0; c < bf.nc; ++c) {
+        if (bf.cdel[c]) continue;
+        if (bf.chf[c].size() != 6) { VIOL(vs, "c16:shape:cell-valence", "cell " << c << " has " << bf.chf[c].size() << " faces"); continue; }
+        if (bf.cv(c).size() != 8) VIOL(vs, "c16:shape:cell-vertices", "cell " << c << " has " << bf.cv(c).size() << " distinct vertices");
+    }
+    for (unsigned char d = 0; d < 6; ++d) if (HK::opposite_orientation(d) != (d ^ 1)) VIOL(vs, "c16:opposite_orientation", (int)d);
+    // orthogonal_orientation: antisymmetric, orthogonal to both arguments, right-handed w.r.t. the layout (XF x YF = ZF)
+    {
+        auto axis = [](int o) { return o / 2; };
+        auto sign = [](int o) { return o % 2 == 0 ? 1 : -1; };
+        for (int a = 0; a < 6; ++a) for (int b = 0; b < 6; ++b) {
+            int r = HK::orthogonal_orientation((unsigned char)a, (unsigned char)b);
+            if (axis(a) == axis(b)) { if (r != HK::INVALID) VIOL(vs, "c16:orthogonal_orientation", "(" << a << "," << b << ") -> " << r << " for parallel directions"); continue; }
+            int ax = 3 - axis(a) - axis(b);
+            int levi = ((axis(a) + 1) % 3 == axis(b)) ? 1 : -1;
+            int sg = sign(a) * sign(b) * levi;
+            int want = 2 * ax + (sg > 0 ? 0 : 1);
+            if (r != want) VIOL(vs, "c16:orthogonal_orientation", "(" << a << "," << b << ") -> " << r << " expected " << want);
+        }
+    }
+    if (!vs.empty() || !m.has_full_bottom_up_incidences() || bf.hf_in_two_cells) return;
+    for (int c = 0; c < bf.nc; ++c) {
+        if (bf.cdel[c] || !is_hex_cell(bf, c)) continue;
+        st.hit("c16-hexes");
+        CellHandle ch(c);
+        const auto &H = bf.chf[c];
+        // stored order convention
+        for (int k = 0; k < 3; ++k) {
+            auto a = bf.hfv(H[2 * k]), b = bf.hfv(H[2 * k + 1]);
+            for (int x : a) if (std::count(b.begin(), b.end(), x)) { VIOL(vs, "c16:order:opposite-pair-shares-vertex", "cell " << c << " halffaces at positions " << 2 * k << "," << 2 * k + 1 << " share vertex " << x << " (stored order " << vstr(H) << ")"); break; }
+        }
+        {
+            std::vector<int> seq;
+            for (int he : bf.hfhe[H[0]]) { int g = adj_in_cell_brute(bf, c, H[0], he); int pos = -1; for (int i = 0; i < 6; ++i) if (H[i] == g) pos = i; seq.push_back(pos); }
+            if (!rot_equal(seq, {2, 4, 3, 5})) VIOL(vs, "c16:order:handedness", "cell " << c << ": walking the first halfface meets positions " << vstr(seq) << ", expected a rotation of [2,4,3,5]");
+        }
+        for (int i = 0; i < 6; ++i) {
+            HalfFaceHandle hfh(H[i]);
+            if (m.orientation(hfh, ch) != i) VIOL(vs, "c16:orientation", "cell " << c << " halfface " << H[i] << " -> " << (int)m.orientation(hfh, ch) << " expected " << i);
+            if (m.opposite_halfface_handle_in_cell(hfh, ch).idx() != H[i ^ 1]) VIOL(vs, "c16:opposite_halfface_handle_in_cell", "cell " << c << " halfface " << H[i]);
+            if (m.get_oriented_halfface((unsigned char)i, ch).idx() != H[i]) VIOL(vs, "c16:get_oriented_halfface", "cell " << c << " dir " << i);
+        }
+        if (m.xfront_halfface(ch).idx() != H[0] || m.xback_halfface(ch).idx() != H[1] || m.yfront_halfface(ch).idx() != H[2] || m.yback_halfface(ch).idx() != H[3] || m.zfront_halfface(ch).idx() != H[4] || m.zback_halfface(ch).idx() != H[5]) VIOL(vs, "c16:front-back-accessors", "cell " << c);
+        if (m.orientation(HalfFaceHandle(H[0] ^ 1), ch) != HK::INVALID) VIOL(vs, "c16:orientation-foreign", "cell " << c);
+        // hex_vertices pattern
+        {
+            bool ra = false;
+            auto hv = collect(m.hv_iter(ch), &ra);
+            auto f0 = bf.hfv(H[0]);
+            std::vector<int> want4{f0[0], f0[3], f0[2], f0[1]};
+            std::set<int> all(hv.begin(), hv.end());
+            if (hv.size() != 8 || all.size() != 8 || all != bf.cv(c)) VIOL(vs, "c16:hex_vertices:set", "cell " << c << ": " << vstr(hv));
+            else {
+                if (std::vector<int>(hv.begin(), hv.begin() + 4) != want4) VIOL(vs, "c16:hex_vertices:first-four", "cell " << c << ": " << vstr(hv) << " expected to start with " << vstr(want4));
+                auto f1 = bf.hfv(H[1]);
+                std::set<int> s1(f1.begin(), f1.end()), l4(hv.begin() + 4, hv.end());
+                if (s1 != l4) VIOL(vs, "c16:hex_vertices:last-four", "cell " << c << ": " << vstr(hv));
+                auto ce = bf.ce(c);
+                auto joined = [&](int a, int b) { for (int e : ce) if ((bf.ev[e][0] == a && bf.ev[e][1] == b) || (bf.ev[e][0] == b && bf.ev[e][1] == a)) return true; return false; };
+                if (!joined(hv[0], hv[4]) || !joined(hv[1], hv[7]) || !joined(hv[2], hv[6]) || !joined(hv[3], hv[5])) VIOL(vs, "c16:hex_vertices:pattern", "cell " << c << ": " << vstr(hv) << " (0-4, 1-7, 2-6, 3-5 must be edges of the cell)");
+                circ_protocol("hv", c, [&](int l) { return m.hv_iter(ch, l); }, [&](int l) { return m.hex_vertices(ch, l); }, hv, SEQ, vs, st);
+            }
+        }
+        // sheet circulators
+        for (int d = 0; d < 6; ++d) {
+            std::set<int> want;
+            for (int i = 0; i < 6; ++i) if (i != d && i != (d ^ 1)) for (int n : bf.cells_of_hf[H[i] ^ 1]) want.insert(n);
+            std::vector<int> w(want.begin(), want.end());
+            circ_protocol("csc", c, [&](int l) { return m.csc_iter(ch, (unsigned char)d, l); }, [&](int l) { return m.cell_sheet_cells(ch, (unsigned char)d, l); }, w, SET, vs, st);
+            st.hit("c16-sheet-checks");
+            // halfface sheet: halffaces of those neighbours that contain an opposite halfedge of the reference halfface
+            std::vector<int> wh;
+            for (int n : want) for (int g : bf.chf[n]) { bool shares = false; for (int he : bf.hfhe[H[d]]) if (std::count(bf.hfhe[g].begin(), bf.hfhe[g].end(), he ^ 1)) shares = true; if (shares) wh.push_back(g); }
+            circ_protocol("hfshf", H[d], [&](int l) { return m.hfshf_iter(HalfFaceHandle(H[d]), l); }, [&](int l) { return m.halfface_sheet_halffaces(HalfFaceHandle(H[d]), l); }, wh, MULTI, vs, st);
+        }
+        if (!vs.empty()) return;
+    }
+}
+#endif  // MC_HEX
+
+// ---- extra operations of the specialised kernels
+inline std::vector<Op> special_menu(const Sys &s, const Bf &bf, bool collapse) {
+    std::vector<Op> r;
+    (void)s; (void)collapse;
+#if defined(MC_TET)
+    std::vector<int> lv;
+    for (int i = 0; i < bf.nv; ++i) if (!bf.vdel[i]) lv.push_back(i);
+    if (s.m.has_full_bottom_up_incidences() && bf.nc < 5)
+        for (size_t a = 0; a < lv.size(); ++a) for (size_t b = a + 1; b < lv.size(); ++b) for (size_t c = b + 1; c < lv.size(); ++c) for (size_t d = c + 1; d < lv.size(); ++d) {
+            r.push_back(Op(ADD_CELL_V, {1, lv[a], lv[b], lv[c], lv[d]}));
+            r.push_back(Op(ADD_CELL_V, {1, lv[b], lv[a], lv[c], lv[d]}));
+        }
+    if (collapse && s.m.has_full_bottom_up_incidences() && !bf.hf_in_two_cells && clean_complex(bf))
+        for (int he = 0; he < 2 * bf.ne; ++he) if (!bf.edel[he / 2] && link_condition(bf, he)) r.push_back(Op(COLLAPSE, {he}));
+#elif defined(MC_HEX)
+    // re-create a hex over an existing free closed surface of 6 quads, its 8 vertices given in all 24 cube rotations
+    if (!s.m.has_full_bottom_up_incidences() || bf.nc >= 5) return r;
+    std::vector<std::vector<int>> surfs;
+    enum_surfaces(bf, 6, surfs);
+    for (auto &sf : surfs) {
+        if (sf.size() != 6) continue;
+        bool quads = true;
+        std::set<int> vs8;
+        std::set<std::pair<int, int>> edges;
+        for (int hf : sf) { if (bf.hfhe[hf].size() != 4) quads = false; for (int he : bf.hfhe[hf]) { vs8.insert(bf.from(he)); edges.insert({bf.from(he), bf.to(he)}); } }
+        if (!quads || vs8.size() != 8) continue;
+        auto cyc = bf.hfv(sf[0]);  // = (v3,v2,v1,v0) in the kernel's layout
+        int v[8];
+        v[3] = cyc[0]; v[2] = cyc[1]; v[1] = cyc[2]; v[0] = cyc[3];
+        auto up = [&](int x) { for (auto &e : edges) if (e.first == x && !std::count(cyc.begin(), cyc.end(), e.second)) return e.second; return -1; };
+        v[4] = up(v[0]); v[5] = up(v[3]); v[6] = up(v[2]); v[7] = up(v[1]);
+        bool ok = true;
+        for (int i = 4; i < 8; ++i) if (v[i] < 0) ok = false;
+        if (!ok) continue;
+        // coordinates of the 8 argument positions on the unit cube (centred, doubled)
+        static const int P[8][3] = {{-1, -1, -1}, {1, -1, -1}, {1, 1, -1}, {-1, 1, -1}, {-1, -1, 1}, {-1, 1, 1}, {1, 1, 1}, {1, -1, 1}};
+        int perm[3] = {0, 1, 2};
+        do {
+            for (int sg = 0; sg < 8; ++sg) {
+                int sx[3] = {(sg & 1) ? -1 : 1, (sg & 2) ? -1 : 1, (sg & 4) ? -1 : 1};
+                int parity = ((perm[0] == 0 && perm[1] == 1) || (perm[0] == 1 && perm[1] == 2) || (perm[0] == 2 && perm[1] == 0)) ? 1 : -1;
+                if (parity * sx[0] * sx[1] * sx[2] != 1) continue;  // proper rotations only
+                std::vector<int> a{1};
+                for (int i = 0; i < 8; ++i) {
+                    int q[3];
+                    for (int k = 0; k < 3; ++k) q[k] = sx[k] * P[i][perm[k]];
+                    int j = -1;
+                    for (int t = 0; t < 8; ++t) if (P[t][0] == q[0] && P[t][1] == q[1] && P[t][2] == q[2]) j = t;
+                    a.push_back(v[j]);
+                }
+                r.push_back(Op(ADD_CELL_V, a));
+            }
+        } while (std::next_permutation(perm, perm + 3));
+    }
+#endif
+    return r;
+}
+
+// C16: every 6-tuple over a pool made of one free closed hex surface (all 720 permutations of it among them) plus
+// a few other-side halffaces, through the topology-checked add_cell
+inline std::vector<Op> menu_c16_perm(const Sys &s, const Bf &bf, const Caps &caps) {
+    std::vector<Op> r;
+    (void)s;
+    std::vector<std::vector<int>> surfs;
+    enum_surfaces(bf, 6, surfs);
+    for (auto &sf : surfs) {
+        if (sf.size() != 6) continue;
+        std::set<int> v8;
+        bool quads = true;
+        for (int hf : sf) { if (bf.hfhe[hf].size() != 4) quads = false; for (int he : bf.hfhe[hf]) v8.insert(bf.from(he)); }
+        if (!quads || v8.size() != 8) continue;
+        std::vector<int> pool = sf;
+        for (int i = 0; (int)pool.size() < caps.pool && i < 6; ++i) pool.push_back(sf[i] ^ 1);
+        std::vector<int> cur;
+        std::function<void()> rec = [&]() {
+            if (cur.size() == 6) { std::vector<int> a{1}; a.insert(a.end(), cur.begin(), cur.end()); r.push_back(Op(ADD_CELL_HF, a)); return; }
+            for (int h : pool) { cur.push_back(h); rec(); cur.pop_back(); }
+        };
+        rec();
+        break;  // one surface per state
+    }
+    return r;
+}
+
+inline void special_circulators_c05(const Sys &s, const Bf &bf, Viols &vs, Stats &st) {
+#if defined(MC_TET)
+    const Mesh &m = s.m;
+    if (!m.has_full_bottom_up_incidences()) return;
+    for (int c = 0; c < bf.nc; ++c) {
+        if (bf.cdel[c] || !is_tet(bf, c)) continue;
+        auto want = bf.hfv(bf.chf[c][0]); want.push_back(apex_of(bf, c, bf.chf[c][0]));
+        circ_protocol("tv", c, [&](int l) { return m.tv_iter(CellHandle(c), l); }, [&](int l) { return m.tet_vertices(CellHandle(c), l); }, want, SEQ, vs, st);
+    }
+#elif defined(MC_HEX)
+    Viols v2;
+    check_c16_state(s, bf, v2, st);  // includes the hv / csc / hfshf protocol checks
+    for (auto &v : v2) if (v.rule.rfind("c05:", 0) == 0) vs.push_back(v);
+#else
+    (void)s; (void)bf; (void)vs; (void)st;
+#endif
+}
+
+inline void special_c09(const Sys &s, const Bf &bf, Viols &vs, Stats &st) {
+#if defined(MC_HEX)
+    // adjacent_halfface_on_sheet / on_surface against brute force on hex cells
+    const Mesh &m = s.m;
+    if (!m.has_full_bottom_up_incidences() || s.tainted) return;
+    for (int c = 0; c < bf.nc; ++c) {
+        if (bf.cdel[c] || !is_hex_cell(bf, c)) continue;
+        for (int hf : bf.chf[c]) for (int he : bf.hfhe[hf]) {
+            // sheet neighbour across he: cross the adjacent halfface's opposite into the next cell, continue straight
+            int a = adj_in_cell_brute(bf, c, hf, he);
+            int want = -1;
+            if (a >= 0 && bf.cell_of(a ^ 1) >= 0 && is_hex_cell(bf, bf.cell_of(a ^ 1))) want = adj_in_cell_brute(bf, bf.cell_of(a ^ 1), a ^ 1, he);
+            int got = m.adjacent_halfface_on_sheet(HalfFaceHandle(hf), HalfEdgeHandle(he)).idx();
+            if (want >= 0 && got != want) VIOL(vs, "c09:adjacent_halfface_on_sheet", "cell " << c << " halfface " << hf << " halfedge " << he << ": got " << got << " expected " << want);
+            st.hit("c09-hex-sheet-adjacency");
+        }
+    }
+#else
+    (void)s; (void)bf; (void)vs; (void)st;
+#endif
+}
+
+inline void check_special_kernel(const Sys &s, const Bf &bf, Viols &vs, Stats &st, bool c15, bool c16) {
+#if defined(MC_TET)
+    if (c15) check_c15_state(s, bf, vs, st);
+#elif defined(MC_HEX)
+    if (c16) check_c16_state(s, bf, vs, st);
+#endif
+    (void)s; (void)bf; (void)vs; (void)st; (void)c15; (void)c16;
+}
+
 }  // namespace mc
